@@ -197,11 +197,15 @@ package bsonkit
 
 //@ func NewSet
 //@   tags C15 C03
+//@   opt loopframe = on
 //@   modifies nothing
 //@   locals set
 //@   ensures [C15,C03 name=fresh-wf] result != nil && fresh(result) && fresh(result.Index) && wfSet(result) && ownSet(result)
+//@   ensures [C15,C03 name=parts-exist] allocated(result.Index) && (cap(result.List) == 0 || (fresh(result.List) && allocated(result.List.base)))
 //@   ensures [C15 name=empty-for-nil] imp(len(list) == 0, len(result.List) == 0 && all(d, Ref, !has(result.Index, d)))
-//@   loop 0 invariant set != nil && fresh(set) && fresh(set.Index) && wfSet(set) && ownSet(set)
+//@   ensures [C15,C06 name=members] all(d, Ref, imp(spec.witness(d), has(result.Index, d) == exists(j, 0, len(list), spec.witness(j) && list[j] == d)))
+//@   loop 0 invariant all(d, Ref, imp(spec.witness(d), has(set.Index, d) == exists(j, 0, rangeindex + 1, spec.witness(j) && list[j] == d))) && spec.witness(rangeindex + 1)
+//@   loop 0 invariant set != nil && fresh(set) && fresh(set.Index) && wfSet(set) && ownSet(set) && (cap(set.List) == 0 || fresh(set.List))
 //@   loop 0 invariant imp(len(list) == 0, len(set.List) == 0 && all(d, Ref, !has(set.Index, d)))
 
 //@ func (*Set).Add
@@ -215,6 +219,7 @@ package bsonkit
 //@   ensures [C15,C01] forall(i, 0, old(len(s.List)), s.List[i] == old(s.List[i]))
 //@   ensures [C03] s.Index == old(s.Index)
 //@   ensures [C15,C03 name=in-place-or-fresh] s.List.base == old(s.List.base) || fresh(s.List)
+//@   ensures [C15,C03 name=in-place-needs-room] imp(result && !fresh(s.List), old(cap(s.List)) > 0)
 //@   ensures [C15,C01 name=members] all(d, Ref, has(s.Index, d) == (old(has(s.Index, d)) || d == doc))
 
 //@ func (*Set).Replace
